@@ -230,6 +230,11 @@ def run(tier: str) -> int:
                 chk.violation("ReturnsInTime(pumped)", dict(family=name, outcome=bad["outcome"], error=bad["err"]))
             continue
         growth[name] = [round(t1, 4), round(t2, 4), round(t4, 4)]
+        for n in (base, 2 * base, 4 * base):
+            fl = tres[f"{name}@{n}"][1]["flags"]
+            badf = [k for k, v in fl.items() if not v]
+            if badf:
+                chk.violation("WellFormed:" + "+".join(badf), dict(family=name, size=n, output_head=tres[f"{name}@{n}"][1]["out_head"]))
         # doubling ratio above a floor: allows quadratic behaviour (x4) with head-room, flags cubic or worse (x8)
         if t2 >= 0.25 and t4 / t2 > 6.0:
             chk.violation("GrowsGently", dict(family=name, cpu_s=growth[name], sizes=[base, 2 * base, 4 * base]))
